@@ -5,6 +5,7 @@ and the points excluded by (F) clauses.
 import PsdVerif.Lemmas.CodecSamples
 import PsdVerif.Model.PayloadLayerInfo
 import PsdVerif.Model.PayloadSimple
+import PsdVerif.Model.PayloadEffects
 import PsdVerif.Model.DescriptorTables
 import PsdVerif.Lemmas.Descriptor3
 
@@ -80,5 +81,64 @@ def annotation : Annotation :=
 def annotations : Annotations := ⟨2, 1, [annotation, { annotation with kind := [115, 110, 100, 77], data := [] }]⟩
 
 def pixelSources : List B := [[1, 2, 3], [], [9]]
+
+/-! ### unit 3 -/
+
+def glowBody (version : Nat) : GlowBody := ⟨version, 5, 4294967295, rgb, kNorm, 1, 255⟩
+def shadow : ShadowInfo := ⟨0, 1, 2, -120, 4, rgb, [109, 117, 108, 32], 1, 0, 191, lab⟩
+def outerGlow0 : OuterGlowInfo := ⟨glowBody 0, none⟩
+def outerGlow2 : OuterGlowInfo := ⟨glowBody 2, some customSpace⟩
+def innerGlow0 : InnerGlowInfo := ⟨glowBody 0, none, none⟩
+def innerGlow2 : InnerGlowInfo := ⟨glowBody 2, some 1, some lab⟩
+def bevel (version : Nat) (real : Option Color) : BevelInfo :=
+  ⟨version, -30, 100, 5, [115, 99, 114, 110], [109, 117, 108, 32], rgb, lab, 2, 191, 128, 1, 1, 0, real, real.map (fun _ => customSpace)⟩
+def bevel0 : BevelInfo := bevel 0 none
+def bevel2 : BevelInfo := bevel 2 (some rgb)
+/-- a version above 2: the writer stores the real colours for `version >= 2`; so does the reader since 077ef93 -/
+def bevel3 : BevelInfo := bevel 3 (some lab)
+def solidFill : SolidFillInfo := ⟨2, kNorm, rgb, 255, 1, lab⟩
+
+/-- every key of `EFFECT_TYPES`, every version-dependent trailer taken -/
+def effects : EffectsLayer :=
+  ⟨0, [(kCmnS, .common ⟨0, 1⟩), (kDsdw, .shadow shadow), (kIsdw, .shadow { shadow with angle := 90 }),
+       (kOglw, .outerGlow outerGlow2), (kIglw, .innerGlow innerGlow2), (kBevl, .bevel bevel2), (kSofi, .solidFill solidFill)]⟩
+def effectsOld : EffectsLayer :=
+  ⟨0, [(kCmnS, .common ⟨0, 1⟩), (kOglw, .outerGlow outerGlow0), (kIglw, .innerGlow innerGlow0), (kBevl, .bevel bevel0)]⟩
+
+/-- excluded by (iii): version 2 without its trailer / version 0 with one -/
+def outerGlow2NoNative : OuterGlowInfo := ⟨glowBody 2, none⟩
+def outerGlow0Native : OuterGlowInfo := ⟨glowBody 0, some rgb⟩
+def innerGlow0Trailer : InnerGlowInfo := ⟨glowBody 0, some 1, some rgb⟩
+def bevel0Real : BevelInfo := bevel 0 (some rgb)
+
+/-- `BevelInfo.read` as it was before repo commit 077ef93: the real colours only `if version == 2` -/
+def bevelDecOld : R BevelInfo := fun d p => do
+  let (version, p) ← readU 4 d p
+  let (angle, p) ← readI32 d p
+  let (depth, p) ← readU 4 d p
+  let (blur, p) ← readU 4 d p
+  let (s1, p) ← readN 4 d p
+  let (hbm, p) ← readN 4 d p
+  if s1 = sig8BIM then
+    let (s2, p) ← readN 4 d p
+    let (sbm, p) ← readN 4 d p
+    if s2 = sig8BIM then
+      let (hc, p) ← Color.dec d p
+      let (sc, p) ← Color.dec d p
+      let (style, p) ← readU 1 d p
+      let (ho, p) ← readU 1 d p
+      let (so, p) ← readU 1 d p
+      let (en, p) ← readU 1 d p
+      let (uga, p) ← readU 1 d p
+      let (dir, p) ← readU 1 d p
+      let ((rh, rs), p) ← (if version = 2 then do
+          let (a, p) ← Color.dec d p
+          let (b, p) ← Color.dec d p
+          .ok ((some a, some b), p)
+        else .ok ((none, none), p) : Except Err ((Option Color × Option Color) × Nat))
+      let x : BevelInfo := ⟨version, angle, depth, blur, hbm, sbm, hc, sc, style, ho, so, en, uga, dir, rh, rs⟩
+      if x.Valid then .ok (x, p) else .error .valueError
+    else .error .assertionError
+  else .error .assertionError
 
 end PsdVerif.Payload.Samples
